@@ -42,13 +42,13 @@ func init() {
 		"The reserved-word predicate is a pure membership test over a table containing all 25 keywords and all universe-scope identifiers of the analysing toolchain (exhaustive); the validity predicate rejects reserved words and every already registered name; the name entered in the table is the very string that passed that test (with or without PackagePrefix); guessed names consist of ASCII letters / digits, are never empty and never start with a digit.",
 		"whether a user-supplied PackagePrefix is itself a legal identifier")
 	prop("C06", []string{"P-LOCALDOT", "P-ISNULL", "P-VALIDALIAS", "P-REGISTER", "P-RENDERITEMS", "P-CTOR@path"},
-		"isLocal is exact string equality; isDotImport is exactly hints[path] = {\".\", alias}; a package token is null exactly for dot-imported or local paths; \".\" is accepted as a name unconditionally and first; prefix / numbering never touch a name not known to differ from \".\"; the list renderer registers every package token before its null test, so a dot import is still emitted.",
+		"isLocal is exact string equality; isDotImport is, for an unregistered path, exactly hints[path] = {\".\", alias} and otherwise exactly \"the registered name is .\"; a package token is null exactly for dot-imported or local paths; \".\" is accepted as a name unconditionally and first; prefix / numbering never touch a name not known to differ from \".\"; the list renderer registers every package token before its null test, so a dot import is still emitted.",
 		"resolution of the bare identifier by the Go compiler")
 	prop("C07", []string{"P-MAPRANGE", "W-NONDET-API", "P-TAG", "W-RENDER-STORES"},
 		"Every range over a map in jen has only order-insensitive effects (updates keyed by the range key, collected slices sorted before any other read, no output / registration / concatenation inside the loop) and nothing in jen consults a clock, randomness, the environment or formats an address. One known finding on the pinned tree: Dict.render renders keys (and thereby registers imports) inside its map range.",
 		"determinism of sort / fmt / go/format themselves; the order among Dict pairs whose keys render identically")
 	prop("C08", []string{"W-RENDER-STORES", "W-IMPORTS-WRITERS", "P-REGISTER", "P-FRAGMENT", "P-GROUPRENDER", "P-DOT-STABLE", "P-MAPRANGE@@!registration function"},
-		"Nothing reachable from any render / isNull implementation or render entry point stores to memory that existed before the call, except new File.imports entries made by the registration function (mod-ref summaries over the module call graph); File.imports is never reset, deleted from or re-assigned; the registration function returns the stored name for a known path before consulting hints; fragment renders use the caller's File; the brace-less case-block form is chosen per render from local copies.",
+		"Nothing reachable from any render / isNull implementation or render entry point stores to memory that existed before the call, except new File.imports entries made by the registration function (mod-ref summaries over the module call graph); File.imports is never reset, deleted from or re-assigned; the registration function returns the stored name for a known path before consulting hints, and the dot-import test answers from the import table for such a path; fragment renders use the caller's File; the brace-less case-block form is chosen per render from local copies.",
 		"byte equality of successive renders additionally relies on C07's clauses and on the determinism of the standard library")
 	prop("C09", []string{"W-GLOBALS-RO", "W-NO-CONCURRENCY", "W-RENDER-STORES", "W-NONDET-API", "W-FILE-ARGS"},
 		"No hidden global state: every package-level variable of jen is only read (no store, map update, element store or address escape), jen uses no goroutines, channels, sync, atomic, unsafe or reflect, and every store on the render path goes to the writer, fresh memory or the File's own import table — so Files that share no Code values touch disjoint memory and a File's output depends on that File alone.",
